@@ -135,8 +135,8 @@ pub fn run(ctx: &mut Ctx) -> (&'static str, String, bool) {
         },
     };
     let thorough = ctx.tier == Tier::Thorough;
-    let n_mixed = ctx.tier.pick(300u64, 12_000u64);
-    let n_ascii = ctx.tier.pick(150u64, 6_000u64);
+    let n_mixed = ctx.tier.pick(1_200u64, 40_000u64);
+    let n_ascii = ctx.tier.pick(600u64, 20_000u64);
     let bases = ctx.tier.pick(2u64, 6u64);
     let base_rng = ctx.rng.fork(1);
     let c = &c;
